@@ -10,17 +10,17 @@ use std::rc::Rc;
 
 pub(crate) fn add(ctx: &mut TulispContext) {
     fn add(ctx: &mut TulispContext, args: &TulispObject) -> Result<TulispObject, Error> {
-        reduce_with(ctx, args, binary_ops!(std::ops::Add::add))
+        reduce_with(ctx, args, binary_ops!(std::ops::Add::add, i64::checked_add))
     }
     intern_set_func!(ctx, add, "+");
 
     fn sub(ctx: &mut TulispContext, args: &TulispObject) -> Result<TulispObject, Error> {
         if let Some(cons) = args.as_list_cons() {
             if cons.cdr().null() {
-                let vv = binary_ops!(std::ops::Sub::sub)(&0.into(), &eval(ctx, cons.car())?)?;
+                let vv = binary_ops!(std::ops::Sub::sub, i64::checked_sub)(&0.into(), &eval(ctx, cons.car())?)?;
                 Ok(vv)
             } else {
-                reduce_with(ctx, args, binary_ops!(std::ops::Sub::sub))
+                reduce_with(ctx, args, binary_ops!(std::ops::Sub::sub, i64::checked_sub))
             }
         } else {
             Err(Error::new(
@@ -32,7 +32,7 @@ pub(crate) fn add(ctx: &mut TulispContext) {
     intern_set_func!(ctx, sub, "-");
 
     fn mul(ctx: &mut TulispContext, args: &TulispObject) -> Result<TulispObject, Error> {
-        reduce_with(ctx, args, binary_ops!(std::ops::Mul::mul))
+        reduce_with(ctx, args, binary_ops!(std::ops::Mul::mul, i64::checked_mul))
     }
     intern_set_func!(ctx, mul, "*");
 
@@ -55,7 +55,7 @@ pub(crate) fn add(ctx: &mut TulispContext) {
             }
         }
         for ele in iter {
-            result = binary_ops!(std::ops::Div::div)(&result, &ele)?;
+            result = binary_ops!(std::ops::Div::div, i64::checked_div)(&result, &ele)?;
         }
         Ok(result)
     }
@@ -64,7 +64,9 @@ pub(crate) fn add(ctx: &mut TulispContext) {
     #[crate_fn(add_func = "ctx", name = "1+")]
     fn impl_1_plus(number: TulispObject) -> Result<TulispObject, Error> {
         match &*number.inner_ref() {
-            TulispValue::Int { value } => Ok((*value + 1).into()),
+            TulispValue::Int { value } => value.checked_add(1).map(|x| x.into()).ok_or_else(|| {
+                Error::new(ErrorKind::OutOfRange, "Integer overflow in 1+".to_string())
+            }),
             TulispValue::Float { value } => Ok((*value + 1.0).into()),
             _ => Err(Error::new(
                 ErrorKind::TypeMismatch,
@@ -76,7 +78,9 @@ pub(crate) fn add(ctx: &mut TulispContext) {
     #[crate_fn(add_func = "ctx", name = "1-")]
     fn impl_1_minus(number: TulispObject) -> Result<TulispObject, Error> {
         match &*number.inner_ref() {
-            TulispValue::Int { value } => Ok((*value - 1).into()),
+            TulispValue::Int { value } => value.checked_sub(1).map(|x| x.into()).ok_or_else(|| {
+                Error::new(ErrorKind::OutOfRange, "Integer overflow in 1-".to_string())
+            }),
             TulispValue::Float { value } => Ok((*value - 1.0).into()),
             _ => Err(Error::new(
                 ErrorKind::TypeMismatch,
@@ -87,6 +91,6 @@ pub(crate) fn add(ctx: &mut TulispContext) {
 
     #[crate_fn(add_func = "ctx", name = "mod")]
     fn impl_mod(dividend: TulispObject, divisor: TulispObject) -> Result<TulispObject, Error> {
-        binary_ops!(std::ops::Rem::rem)(&dividend, &divisor)
+        binary_ops!(std::ops::Rem::rem, i64::checked_rem)(&dividend, &divisor)
     }
 }
